@@ -10,7 +10,7 @@ from mc.rec import Rec, unhex
 from ref import pus as RP
 
 PROPERTY = "C15"
-LEVEL = "exploration"
+LEVEL = "model_checking"  # bounded-exhaustive enumeration of executions against a reference model (DESIGN.md 1, 2.1)
 EXHAUSTIVE = True
 RULE = (
     "request ID = two 16-bit words (version 3 | type 1 | sec-hdr 1 | APID 11 ; seq flags 2 | seq count 14): each word swept over "
